@@ -105,6 +105,12 @@ def collection_reports(s, n):
             else:
                 docs.append(B.msg_doc(kind, mid, ids=['nope-%d' % j] + (['B'] if j == 0 else [])))
             mid += 1
+        if c % 2:
+            # two stories arrive, a message is refused outright, then a delete names one of the new stories and a ghost
+            docs.append(B.msg_doc('roStoryInsert', mid, target='B', carried=[gen.simple_story('N1', 1), gen.simple_story('N2', 1)]))
+            docs.append(B.msg_doc('roStoryReplace', mid + 1, target='NOWHERE', carried=[gen.simple_story('N9', 1)]))
+            docs.append(B.msg_doc('roStoryDelete', mid + 2, ids=['N1', 'GHOST', 'C']))
+            docs.append(B.msg_doc('EAStorySwap', mid + 3, ids=['N2', 'A'], target=B.BLANK))
         docs.append(B.msg_doc('roDelete', 900))
         rng.shuffle(docs)
         judge_collection_reports(s, docs)
